@@ -404,3 +404,70 @@ pub fn raster(sink: &mut Sink, seed: u64, thorough: bool) {
         sink.emit(&raster_event(id, "rasterprog", &qr, p));
     }
 }
+
+// ------------------------------------------------------------------ growth: conversions and the Module API (not listed properties)
+/// Colour conversions for every input type, shape <-> string conversions, Module constructors / set / toggle, QRCode::default
+pub fn conv(sink: &mut Sink, seed: u64, thorough: bool) {
+    use fast_qr::convert::{rgba2hex, Color};
+    use fast_qr::{Module, ModuleType};
+    let mut r = rng(seed, 51);
+    let n = if thorough { 20_000 } else { 2_000 };
+    for i in 0..n {
+        let c: [u8; 4] = match i % 4 { 0 => [r.gen(), r.gen(), r.gen(), 255], 1 => [r.gen_range(0..16), r.gen_range(0..16), r.gen_range(0..16), r.gen_range(0..16)], 2 => [r.gen(), r.gen(), r.gen(), r.gen()], _ => [0, 255, r.gen(), [0u8, 1, 254, 255][i % 4]] };
+        let (how, s): (&str, Result<String, String>) = match (i / 4) % 5 {
+            0 => ("array4", Ok(Color::from(c).0)),
+            1 => ("hex", Ok(rgba2hex(c))),
+            2 => ("slice4", guarded(10, move || Color::from(&c[..]).0)),
+            3 => ("vec4", guarded(10, move || Color::from(c.to_vec()).0)),
+            _ => ("array3", Ok(Color::from([c[0], c[1], c[2]]).0)),
+        };
+        let arr: Vec<u8> = if how == "array3" { c[..3].to_vec() } else { c.to_vec() };
+        let id = sink.id();
+        let (kind, out) = match s { Ok(x) => ("Ok".to_string(), cps(&x)), Err(k) => (k, vec![]) };
+        sink.emit(&json!({"ev": "ConvColor", "id": id, "tag": format!("conv:{how}"), "how": how, "c": arr, "kind": kind, "out": out}));
+    }
+    // slices of the wrong length: the documented panic ("Invalid color length"), never anything else
+    for len in [0usize, 1, 2, 5, 8] {
+        let v: Vec<u8> = (0..len).map(|_| r.gen()).collect();
+        let v2 = v.clone();
+        let res = guarded(10, move || Color::from(&v2[..]).0);
+        let id = sink.id();
+        sink.emit(&json!({"ev": "ConvColor", "id": id, "tag": "conv:badslice", "how": "slice", "c": v, "kind": match &res { Ok(_) => "Ok".to_string(), Err(k) => k.clone() }, "out": res.map(|x| cps(&x)).unwrap_or_default()}));
+    }
+    // strings are passed through
+    for s in ["red", "#FFF", "", "rgb(1,2,3)", "#12345678"] {
+        let id = sink.id();
+        sink.emit(&json!({"ev": "ConvColor", "id": id, "tag": "conv:str", "how": "str", "c": cps(s), "kind": "Ok", "out": cps(&Color::from(s).0)}));
+    }
+    // Shape <-> name
+    let names = ["square", "circle", "rounded_square", "vertical", "horizontal", "diamond", "SQUARE", "Circle", "Rounded_Square", "DIAMOND", "roundedsquare", "", "hexagon", " square"];
+    for name in names {
+        let sh: Shape = Shape::from(name.to_string());
+        let idx: usize = sh.into();
+        let back: &str = sh.into();
+        let id = sink.id();
+        sink.emit(&json!({"ev": "ConvShape", "id": id, "tag": "conv:shape", "name": cps(name), "index": idx, "back": cps(back)}));
+    }
+    // Module API: constructors, set, toggle for every (value, type)
+    let types = [ModuleType::Data, ModuleType::FinderPattern, ModuleType::Alignment, ModuleType::Timing, ModuleType::Format, ModuleType::Version, ModuleType::DarkModule, ModuleType::Empty];
+    for (ti, t) in types.iter().enumerate() {
+        for v in [false, true] {
+            let m = Module::new(v, *t);
+            let mut s1 = m; s1.set(true);
+            let mut s0 = m; s0.set(false);
+            let mut tg = m; tg.toggle();
+            let ctor = match ti { 0 => Module::data(v), 1 => Module::finder_pattern(v), 2 => Module::alignment(v), 3 => Module::timing(v), 4 => Module::format(v), 5 => Module::version(v), 6 => Module::dark(v), _ => Module::empty(v) };
+            let proj = |m: Module| vec![m.value() as u8, (m.module_type() as u8) >> 1];
+            let id = sink.id();
+            sink.emit(&json!({"ev": "ModuleApi", "id": id, "tag": "conv:module", "value": v as u8, "type": ti, "new": proj(m), "ctor": proj(ctor), "set1": proj(s1), "set0": proj(s0), "toggle": proj(tg)}));
+        }
+    }
+    // QRCode::default(size): all light data modules, no fields, rows of `size` modules
+    for size in [21usize, 25, 177] {
+        let q = QRCode::default(size);
+        let all_default = q.data.iter().all(|m| m.0 == 0);
+        let id = sink.id();
+        sink.emit(&json!({"ev": "QrDefault", "id": id, "tag": "conv:default", "size": size, "reported": q.size, "all_default": all_default as u8, "rowlen": q[size - 1].len(),
+                          "fields_none": (q.version.is_none() && q.ecl.is_none() && q.mask.is_none() && q.mode.is_none()) as u8}));
+    }
+}
